@@ -4,6 +4,8 @@
 package main
 
 import (
+	"sort"
+
 	"golang.org/x/perf/internal/verifh/hx"
 )
 
@@ -226,6 +228,53 @@ func genScenario(r *hx.Rand) Scenario {
 	return sc
 }
 
+// genUnlisted: a fixed order projected WITHOUT the implied filter (K-only precondition, but the
+// strict-total-order clause is judged by S): the list reverses byte order and an unlisted
+// non-empty value lies bytewise between two listed ones.
+func genUnlisted(r *hx.Rand) Scenario {
+	all := append(append([]string(nil), pool...), "linux", "darwin", "freebsd", "amd64", "arm64", "x", "y", "zz")
+	seen := map[string]bool{"": true}
+	var vs []string
+	for len(vs) < 3+r.Intn(3) {
+		v := hx.Pick(r, all)
+		if !seen[v] {
+			seen[v] = true
+			vs = append(vs, v)
+		}
+	}
+	sort.Strings(vs)
+	// listed: every other value, in descending byte order; the rest stay unlisted
+	var listed []string
+	for i := len(vs) - 1; i >= 0; i -= 2 {
+		listed = append(listed, vs[i])
+	}
+	key := hx.Pick(r, []string{"a", "/x"})
+	specs := []SpecT{{Key: key, Order: "fixed", Fixed: listed}}
+	if r.Bool() {
+		specs = append(specs, SpecT{Key: "b", Order: hx.Pick(r, []string{"first", "alpha"})})
+	}
+	sc := Scenario{S: false, Tags: []string{"fixed", "unlisted"}}
+	sc.Ops = append(sc.Ops, Op{Kind: 'P', Specs: specs})
+	perm := append([]string(nil), vs...)
+	for i := len(perm) - 1; i > 0; i-- {
+		j := r.Intn(i + 1)
+		perm[i], perm[j] = perm[j], perm[i]
+	}
+	for _, v := range perm {
+		res := ResT{Name: "B", Units: []string{"ns/op"}}
+		if key == "a" {
+			res.Cfg = append(res.Cfg, CfgT{"a", v, true})
+		} else {
+			res.Name = "B/x=" + v
+		}
+		if r.Bool() {
+			res.Cfg = append(res.Cfg, CfgT{"b", hx.Pick(r, vs), true})
+		}
+		sc.Ops = append(sc.Ops, Op{Kind: 'A', Res: res})
+	}
+	return sc
+}
+
 func main() {
 	defer hx.Flush()
 	r := hx.NewRand(9)
@@ -241,6 +290,9 @@ func main() {
 	n := hx.N(1500, 40000)
 	for i := 0; i < n; i++ {
 		sc := genScenario(r)
+		if i%15 == 7 {
+			sc = genUnlisted(r)
+		}
 		if id%nshards == shard {
 			runScenario(id, sc, shuf)
 		}
